@@ -554,3 +554,34 @@ v("c02-default-memo-keyed-by-type-text", "C02", "ATTR-MEMO", U + "coerce_input_v
 v("c02-leaf-fast-path-misses-nonnull-list", "C02", "NONNULL-INVARIANT", E + "executor.py",
   "        complete_list_item_value = self.complete_list_item_value\n        complete_awaitable_list_item_value = self.complete_awaitable_list_item_value\n        completed_results: list[Any] = []\n        append_completed = completed_results.append\n        awaitable_indices: list[int] = []\n        append_awaitable = awaitable_indices.append\n        stream_usage = self.get_stream_usage(field_details_list, path)\n        iterator = iter(items)",
   "        complete_list_item_value = (\n            (lambda item, results, *_a: results.append(self.complete_leaf_value(get_named_type(item_type), item)) or False)\n            if is_leaf_type(get_named_type(item_type)) and not is_list_type(item_type)\n            else self.complete_list_item_value\n        )\n        complete_awaitable_list_item_value = self.complete_awaitable_list_item_value\n        completed_results: list[Any] = []\n        append_completed = completed_results.append\n        awaitable_indices: list[int] = []\n        append_awaitable = awaitable_indices.append\n        stream_usage = self.get_stream_usage(field_details_list, path)\n        iterator = iter(items)")
+
+# -- round 4: C14 ------------------------------------------------------------------------------------------
+OF = V + "rules/overlapping_fields_can_be_merged.py"
+v("c14-exclusive-any-different-parents", "C14", "EXCLUSIVE-OBJECTS", OF,
+  "        parent_type1 != parent_type2\n        and is_object_type(parent_type1)\n        and is_object_type(parent_type2)\n",
+  "        parent_type1 != parent_type2\n        and (is_object_type(parent_type1) or is_object_type(parent_type2))\n")
+v("c14-exclusive-named-flags", "C14", "EXCLUSIVE-OBJECTS", OF,
+  "    are_mutually_exclusive = parent_fields_are_mutually_exclusive or (\n        parent_type1 != parent_type2\n        and is_object_type(parent_type1)\n        and is_object_type(parent_type2)\n    )\n",
+  "    both_objects = is_object_type(parent_type1) and is_object_type(parent_type2)\n    are_mutually_exclusive = parent_fields_are_mutually_exclusive or (\n        both_objects and parent_type1 != parent_type2\n    )\n",
+  expect="silent")
+v("c14-union-fields-skipped", "C14", "FIELDS-RECORDED", OF,
+  "            field_name = selection.name.value\n            field_def = (\n", "            field_name = selection.name.value\n            if not (is_object_type(parent_type) or is_interface_type(parent_type)):\n                continue\n            field_def = (\n")
+v("c14-equal-selection-sets-shortcut", "C14", "NODE-BY-IDENTITY", OF,
+  "    conflicts: list[Conflict] = []\n\n    field_map1, fragment_spreads1 = get_fields_and_fragment_spreads(\n        context,\n        cached_fields_and_fragment_spreads,\n        parent_type1,",
+  "    conflicts: list[Conflict] = []\n    if selection_set1 == selection_set2 and var_map1 == var_map2:\n        return conflicts\n\n    field_map1, fragment_spreads1 = get_fields_and_fragment_spreads(\n        context,\n        cached_fields_and_fragment_spreads,\n        parent_type1,")
+
+# -- round 4: C09 ------------------------------------------------------------------------------------------
+v("c09-no-space-before-block-string", "C09", "SEPARATOR-TABLE", U + "strip_ignored_characters.py",
+  "            is_non_punctuator or current_token.kind == TokenKind.SPREAD\n",
+  "            (is_non_punctuator and token_kind != TokenKind.BLOCK_STRING) or current_token.kind == TokenKind.SPREAD\n")
+v("c09-separator-named-local", "C09", "SEPARATOR-TABLE", U + "strip_ignored_characters.py",
+  "        if was_last_added_token_non_punctuator and (\n            is_non_punctuator or current_token.kind == TokenKind.SPREAD\n        ):\n",
+  "        needs_delimiter = is_non_punctuator or token_kind == TokenKind.SPREAD\n        if needs_delimiter and was_last_added_token_non_punctuator:\n",
+  expect="silent")
+v("c09-block-string-backslash-pair", "C09", "BLOCK-STEPS", L + "lexer.py",
+  "            if char in \"\\r\\n\":\n                current_line += body[chunk_start:position]\n                block_lines.append(current_line)\n",
+  "            if char == \"\\\\\" and body[position + 1 : position + 2] == \"\\\\\":\n                position += 2\n                continue\n\n            if char in \"\\r\\n\":\n                current_line += body[chunk_start:position]\n                block_lines.append(current_line)\n")
+v("c09-block-escape-test-in-local", "C09", "BLOCK-STEPS", L + "lexer.py",
+  "            if char == \"\\\\\" and body[position + 1 : position + 4] == '\"\"\"':\n",
+  "            following = body[position + 1 : position + 4]\n            if char == \"\\\\\" and following == '\"\"\"':\n",
+  expect="silent")
